@@ -16,6 +16,9 @@ CHECKS = {
  "C06": ("map-range idiom classification, global-store scan, goroutine capture analysis, ambient-source who-may-call, with a positive-control package",
          "Decides the structural causes of non-determinism and cross-package influence for every run and schedule: no order-sensitive map iteration, package-level state immutable after init, workers write only their own slot and follow the WaitGroup protocol, no clock/random/env sources, sort before emit, the command writes a package's file depending only on that package's error. Level 'other'.",
          "Races inside go/packages/go/types are not decided (documented concurrency-safe).", "DESIGN.md §4 C06"),
+ "C07": ("call-graph recover discipline + audited enumeration of every potential run-time panic site with automatic discharge by must-facts (length bounds, nil tests, type tests, caller-established facts) and invariant tables",
+         "Decides for all type-correct inputs that a structured error is always recovered, and that every raw panic, single-result type assertion, constant slice index, partial-helper call, nil go/types package and documented-nil go/ast field in the translator and printer is guarded or justified by a named go/ast / go/types / Go-typing invariant; new unaudited sites fail. Also categories, positions and error aggregation. Level 'other'.",
+         "Termination and panics inside dependencies are not decided; the invariant tables are reviewed by hand and listed in the evidence.", "DESIGN.md §4 C07"),
  "C08": ("table extraction from init SSA, callback-shape facts (packages.Visit pre/post), path enumeration of header/footer, provenance of emitted paths",
          "Decides that the FFI table is consistent with the builtin table, the import-graph walk prunes exactly at FFI packages and refuses two FFIs, header/footer pair up, the Require path and the output file path both derive from pathToCoqPath of the whole import path, ImportDecls are produced exactly for non-builtin imports, printed once sorted and de-duplicated. Level 'other'.",
          "Coq resolving the Require is not decided.", "DESIGN.md §4 C08"),
